@@ -145,8 +145,10 @@ Annotate(p, A) == /\ api[p].exists /\ api[p].node /\ ~api[p].term
 Terminate(p) == /\ api[p].exists /\ api[p].node /\ ~api[p].term
                 /\ api' = [api EXCEPT ![p].term = TRUE]
                 /\ UNCHANGED <<total, resv>> /\ KeepExempt
+\* the pod object becomes unassigned again (multi-scheduler); what an unassigned object carries in its annotation is
+\* irrelevant to the node's ledgers, so the abstraction forgets it
 Unassign(p) == /\ api[p].exists /\ api[p].node
-               /\ api' = [api EXCEPT ![p].node = FALSE]
+               /\ api' = [api EXCEPT ![p] = [NoPod EXCEPT !.exists = TRUE]]
                /\ UNCHANGED <<total, resv>> /\ KeepExempt
 Delete(p) == /\ api[p].exists
              /\ api' = [api EXCEPT ![p] = NoPod]
